@@ -2,6 +2,7 @@
 structure (model: nested lists)."""
 import copy
 import multiprocessing
+import os
 import pickle
 
 from hypothesis import strategies as st
@@ -403,7 +404,24 @@ def _run_case(dd, case, acc, pool):
     return nt, classes
 
 
+def worker_runs(ctx, acc):
+    """Trees sent to and from worker processes in real parallel ddmin / hybrid runs: what a
+    worker works on must equal what it was sent (C05's chain oracle on traced runs; keys run/...)."""
+    from checks import c05
+    racc = runner.BorrowedAcc(acc, 'run/', dict(kind='ddmin-run'))
+    n = [0]
+
+    def body(case):
+        n[0] += 1
+        nt, classes, r = c05.run_case(case, racc, os.path.join(ctx.workdir, f'run{n[0] % 3}'))
+        racc.case(case, nontrivial=nt, classes=classes + ['ddmin-run'])
+
+    runner.hyp_run(ctx, c05.cases().filter(lambda c: c['opts']['strategy'] != 'hierarchical'), body,
+                   ctx.share(48 if ctx.quick else 1200), salt=43)
+
+
 def shard(ctx, acc):
+    worker_runs(ctx, acc)
     global _pool
     dd = env.load()
     pool = multiprocessing.get_context('fork').Pool(2)
@@ -437,6 +455,10 @@ def shard(ctx, acc):
 
 def replay(case, acc, ctx):
     dd = env.load()
+    if case.get('kind') == 'ddmin-run':
+        from checks import c05
+        c05.run_case(case, runner.BorrowedAcc(acc, 'run/', dict(kind='ddmin-run')), os.path.join(ctx.workdir, 'replay'))
+        return
     if case.get('kind') in ('ids', None) or 'n' in case:
         check_binary_search(dd, acc)
         return
